@@ -2,7 +2,7 @@
    Property theorems only; each is closed by an exact lemma and followed by Print Assumptions. *)
 From stdpp Require Import gmap.
 From Coq Require Import NArith String List Bool.
-From PV Require Import C01.FS C01.FSFacts C01.Model C01.Proofs C01.ProofsPdf C01.ProofsAll C01.Table C01.Generated C01.ProofsTable.
+From PV Require Import C01.FS C01.FSFacts C01.Model C01.Proofs C01.ProofsPdf C01.ProofsAll C01.ProofsMulti C01.Table C01.Generated C01.ProofsTable.
 
 (* staged_fault_safe for the api skeleton (every single-output *File function of pkg/api:
    open inputs, openStagedOutput, deferred cleanup/commit, body).
@@ -123,8 +123,64 @@ Theorem staged_fault_safe : forall fresh,
 Proof. exact staged_fault_safe_proof. Qed.
 Print Assumptions staged_fault_safe.
 
+(* ---------- form multi-fill: a multi-output transaction with rollback ---------- *)
+(* merge mode.  For every list of records (any number, any contents), every key of the record writer other
+   than the shadowed one, new pairwise distinct part names, and exactly one cause of failure — no fault
+   and any record (after any number k of written parts) or the merge step ending in an error / a record
+   failing before its output is opened / a panic where the writer's key tolerates it; or a single injected
+   fault anywhere with data that would succeed: if the run does not return Ok, the filesystem is unchanged
+   (every part written so far is removed again), unless every record and the merge succeeded and the fault
+   hit the final clean-up of the intermediates. *)
+Theorem multi_fill_merge_fault_safe : forall fresh,
+  (forall m, m !! fresh m = None) ->
+  forall pl parts mfin, multi_cause pl parts mfin ->
+  forall k final mchunks m0 tr,
+  k <> KAlways -> (forall p, In p parts -> safe_for k (p_fin p)) ->
+  base.NoDup (map p_out parts) -> (forall p, In p parts -> m0 !! p_out p = None) ->
+  forall r w', multi_fill pl fresh true k parts final mchunks mfin (W m0 0 tr) = (r, w') -> r <> COk ->
+  unchanged m0 (wfs w') \/
+  (exists done w1, fill_loop pl fresh k parts [] (W m0 0 tr) = (COk, done, w1) /\
+                   fst (api_file pl fresh KFlag [] None (Some final) mchunks mfin w1) = COk).
+Proof. exact multi_fill_merge_fault_safe_proof. Qed.
+Print Assumptions multi_fill_merge_fault_safe.
+
+(* non-merge mode, and the shape of every multi-output operation without rollback (split, extract, cut):
+   after a failure the filesystem is the original one plus exactly the first n completed parts.
+   Full statement of the property ("nothing new remains") fails here by design: see the refuted witness. *)
+Theorem multi_fill_keeps_prefix_partial : forall fresh,
+  (forall m, m !! fresh m = None) ->
+  forall pl parts mfin, multi_cause pl parts mfin ->
+  forall k final mchunks m0 tr,
+  k <> KAlways -> (forall p, In p parts -> safe_for k (p_fin p)) ->
+  base.NoDup (map p_out parts) -> (forall p, In p parts -> m0 !! p_out p = None) ->
+  forall r w', multi_fill pl fresh false k parts final mchunks mfin (W m0 0 tr) = (r, w') ->
+  exists n, extends m0 (firstn n (map p_out parts)) (wfs w').
+Proof. exact multi_fill_keeps_prefix_partial_proof. Qed.
+Print Assumptions multi_fill_keeps_prefix_partial.
+
+(* a rollback that is only registered once the merge step is reached leaves the parts of the records
+   written before a failing record *)
+Theorem late_rollback_leaves_parts_refuted :
+  exists r w', multi_fill_late nofault fresh_path KNone
+                 [Part COk 2%positive [[1%N]] COk; Part CErr 3%positive [] COk] 4%positive [] COk (W ∅ 0 []) = (r, w') /\
+    r = CErr /\ wfs w' !! 2%positive = Some (File [1%N] mode_new).
+Proof. exact late_rollback_leaves_parts_refuted_proof. Qed.
+Print Assumptions late_rollback_leaves_parts_refuted.
+
+(* the table: both multi-fill transactions register the rollback before the record loop (so `multi_fill`
+   is their model) and their record writer is error- and fault-safe with a key other than the shadowed one *)
+Theorem multi_fill_rows :
+  (forall r, In r table -> is_tx r = true -> f_key r = DRollbackFirst) /\
+  existsb (fun r => String.eqb (f_name r) "multiFillFormJSONWith" && is_tx r) table = true /\
+  existsb (fun r => String.eqb (f_name r) "multiFillFormCSVWith" && is_tx r) table = true /\
+  (forall r, In r table -> f_name r = "writeMultiFillOutputWith"%string ->
+     exists k, key_of_dkey (f_key r) = Some k /\ k <> KAlways /\ forall fin, fin <> CPanic -> safe_for k fin).
+Proof. exact multi_fill_rows_proof. Qed.
+Print Assumptions multi_fill_rows.
+
 (* all_file_functions_safe: in the table regenerated from the Go sources, every function that writes one
-   output through a staging helper and is not one of the three undeferred pkg/pdfcpu functions WriteReader / CopyFile / Write (panic_unsafe) keys its
+   output through a staging helper and is not one of the undeferred functions pdfcpu WriteReader / CopyFile / Write and api writeMultiFillOutputWith
+   (panic_unsafe) keys its
    deferred decision on a completion flag; so api_staged_fault_safe* / pdf_staged_fault_safe apply to it
    with k = KFlag for every ending of the body, panic included *)
 Theorem all_file_functions_safe :
